@@ -15,14 +15,14 @@ def scenarios(rng, tier, wd, stats):
         sc += L.fam_mutations("c14", muts[::2], ("notify",)) + L.fam_mutations("c14", muts[1::2], ("retry",))
     else:
         sc += L.fam_mutations("c14", muts)
-    np_ = L.fam_notify_path("c14", ["badsig", "malsig", "garbage"])
-    rp = L.fam_retry_path("c14", ["badsig", "malsig", "garbage"])
+    np_ = L.fam_notify_path("c14", ["badsig", "malsig", "garbage", "broken"])
+    rp = L.fam_retry_path("c14", ["badsig", "malsig", "garbage", "broken"])
     if q:
         keep = lambda s: not any(("garbage%d" % i) in s["name"] or ("malsig%d" % i) in s["name"] for i in range(2, 10))
         np_ = [s for s in np_ if keep(s)]
         rp = [s for s in rp if keep(s)]
     sc += np_ + rp
-    sc += [s for s in L.fam_retrier_states("c14") if "misb" in s["name"]] + L.fam_misbehaving_late("c14")
+    sc += [s for s in L.fam_retrier_states("c14") if "misb" in s["name"]] + L.fam_misbehaving_late("c14") + L.fam_restart("c14")
     sc += L.tlc_scripts("c14", rng, wd, stats, 10 if q else 150)
     sc += L.fam_random("c14", rng, 8 if q else 250)
     return sc
